@@ -73,9 +73,10 @@ Inductive tsym :=
 | TTypedef (name : str) (pos : position)        (* typedef struct _Tag Name; *)
 | TStruct (fields : list str) (pos : position). (* struct _Tag { fields }; or struct _Tag; *)
 
-(* state: the record of this tag in the tag namespace (if any), and extra records created by
-   further typedefs of the same tag *)
-Definition tstate := (option rec * list rec)%type.
+(* state: the record of this tag in the tag namespace (if any), and the further typedefs of the
+   same tag: each becomes a record of its own that SHARES the field list of the tag's record
+   (new_compound.fields = compound.fields), so fields parsed later show up in it too *)
+Definition tstate := (option rec * list (str * position))%type.
 Definition tstep (st : tstate) (x : tsym) : tstate :=
   let '(tag, extra) := st in
   match x with
@@ -83,8 +84,7 @@ Definition tstep (st : tstate) (x : tsym) : tstate :=
       match tag with
       | Some c =>
           match r_name c with
-          | Some _ => (tag, extra ++ [{| r_name := Some name; r_fields := r_fields c; r_opaque := false; r_disguised := false;
-                                         r_positions := [pos] |}])
+          | Some _ => (tag, extra ++ [(name, pos)])
           | None => (Some {| r_name := Some name; r_fields := r_fields c; r_opaque := r_opaque c; r_disguised := r_disguised c;
                              r_positions := r_positions c ++ [pos] |}, extra)
           end
@@ -100,3 +100,10 @@ Definition tstep (st : tstate) (x : tsym) : tstate :=
                r_positions := r_positions c ++ [pos] |}, extra)
   end.
 Definition trun (l : list tsym) : tstate := fold_left tstep l (None, []).
+(* the records of the namespace at the end *)
+Definition tfinal (st : tstate) : list rec :=
+  match fst st with
+  | Some c => c :: map (fun np => {| r_name := Some (fst np); r_fields := r_fields c; r_opaque := false; r_disguised := false;
+                                     r_positions := [snd np] |}) (snd st)
+  | None => []
+  end.
